@@ -908,6 +908,15 @@ def arbitrary_float_decls(tier='quick'):
                 bl, n1 = aux.sym_bound('lo', t)
                 bu, n2 = aux.sym_bound('hi', t)
                 out.append(mk('arbf_%s_%s_%s_sym' % (t, lo, up), 'float', t, validators=[Validator(lo, bl), Validator(up, bu)], aux=[n1, n2], derives=der))
+        # symbolic bounds together with `finite`, and one-sided symbolic bounds
+        for lo in ('greater', 'greater_or_equal'):
+            bl, n1 = aux.sym_bound('lo', t)
+            bu, n2 = aux.sym_bound('hi', t)
+            up = 'less' if lo == 'greater' else 'less_or_equal'
+            out.append(mk('arbf_%s_fin_%s_%s_sym' % (t, lo, up), 'float', t, validators=[fin, Validator(lo, bl), Validator(up, bu)], aux=[n1, n2], derives=der))
+            out.append(mk('arbf_%s_fin_%s_sym' % (t, lo), 'float', t, validators=[Validator(lo, bl), fin], aux=[n1, n2], derives=der))
+            out.append(mk('arbf_%s_fin_%s_sym' % (t, up), 'float', t, validators=[fin, Validator(up, bu)], aux=[n1, n2], derives=der))
+            out.append(mk('arbf_%s_%s_only_sym' % (t, lo), 'float', t, validators=[Validator(lo, bl)], aux=[n1, n2], derives=der))
         s, n5 = aux.custom('san', t)
         out.append(mk('arbf_%s_san_nov' % t, 'float', t, sanitizers=[Sanitizer('with', s)], aux=[n5], derives=der))
     for d in out:
